@@ -526,7 +526,26 @@ def r6_3(run):
     mask = ("upd", expect(ix, f_sorted, "np.ones(len(indices), 'bool')"), (("slice", C(None), C(-1), C(None)),),
             expect(ix, f_sorted, "indices[1:] != indices[:-1]"))
     keys = ("idx", ("n", "indices"), (mask,))
-    ok = len(rets) == 1 and rets[0].value[0] == "op" and rets[0].value[1] == "++" and rets[0].value[2] == ("list", (keys,))
+
+    def first_of(v, depth=0):
+        """first element of a list value: a display, [k] + rest, or a list that starts as [k] and is appended to in a loop"""
+        if depth > 6 or not isinstance(v, tuple) or not v:
+            return None
+        if v[0] in ("list", "tuple"):
+            return v[1][0] if v[1] else None
+        if v[0] == "op" and v[1] == "++":
+            return first_of(v[2], depth + 1)
+        if v[0] == "carried":
+            return first_of(v[2], depth + 1)
+        if v[0] == "phi":
+            L_ = r.loops.get(v[1])
+            return first_of(L_["env"].get(v[2]), depth + 1) if L_ else None
+        if v[0] == "merge":
+            a_, b_ = first_of(v[2], depth + 1), first_of(v[3], depth + 1)
+            return a_ if a_ is not None and b_ is not None and tkey(a_) == tkey(b_) else None
+        return None
+    got = first_of(rets[0].value) if len(rets) == 1 else None
+    ok = got is not None and tkey(got) == tkey(keys)
     run.ob("numpy|unique-sorted", ok, "the numpy path returns first the last-of-run selection of the sorted keys (the unique keys), then the sums",
            run.where(f_sorted, f_sorted.node), detail=tshow(rets[0].value)[:200] if rets else None)
     run.floor(5)
